@@ -9,7 +9,7 @@ the real code.  `eval I e ρ` is the value of `e` in ℚ for EVERY environment `
 interpretation `I` of uninterpreted function applications.
 Only property theorems and non-vacuity examples live here.
 -/
-import Ampverif.Lemmas.C18Commute
+import Ampverif.Lemmas.C18Depth
 
 namespace Ampverif.Props.C18
 open Ampverif.Model Ampverif.Lemmas.C18
@@ -56,6 +56,17 @@ theorem doit_preserves_value (I : Interp) (v : Variant) (hv : v.sound) :
     have hnd : (names ixs).Nodup := by
       simp only [wfSums, Bool.and_eq_true, decide_eq_true_eq] at hw; exact hw.1.1
     exact evaluate_preserves_value I v hv b ixs hnd ρ'
+
+/-- …and with fuel ≥ nesting depth the result is explicit: no pool sum is left anywhere. -/
+theorem doit_leaves_no_pool_sum (v : Variant) (hv : v.sound) :
+    ∀ (n : Nat) (e : Expr), psumDepth e ≤ n → psumDepth (doit v n e) = 0 := by
+  intro n
+  induction n with
+  | zero => intro e h; simpa [doit] using h
+  | succ n ih =>
+    intro e h
+    simp only [doit]
+    exact psumDepth_doitPass v hv (doit v n) n ih e h
 
 /-! ### 2. free symbols -/
 
